@@ -28,13 +28,14 @@ func runC18O1(c *Ctx) {
 			ctx = p
 		}
 	}
-	// closesElems(fields): the instruction closes an element of one of the collections
+	// closesElems(fields): the instruction closes an element of one of the collections - or ends it in another way
+	// (CloseRead / CloseWrite, a deadline that is not the context's own: c18IsCut)
 	closesElems := func(fields map[*types.Var]bool) func(ssa.Instruction) bool {
 		return func(i ssa.Instruction) bool {
 			if _, isGo := i.(*ssa.Go); isGo {
 				return false
 			}
-			recv, ok := c18IsClose(i)
+			recv, ok := c18IsCut(i)
 			return ok && c18FromFields(recv, fields)
 		}
 	}
@@ -58,6 +59,11 @@ func runC18O1(c *Ctx) {
 		eachInstr(fr.fn, func(i ssa.Instruction) {
 			switch x := i.(type) {
 			case *ssa.Go:
+				// a goroutine started here that closes the elements without waiting for the end of a context first
+				// (a reaper of "idle" tunnels) closes them from this point on
+				if c18GoCuts(x, pred) {
+					add(i)
+				}
 				return
 			case *ssa.Defer:
 				if fr.may(x, pred) {
@@ -73,7 +79,7 @@ func runC18O1(c *Ctx) {
 				return
 			}
 			add(i)
-			recv, direct := c18IsClose(i)
+			recv, direct := c18IsCut(i)
 			if !direct || !pred(i) {
 				return
 			}
@@ -254,6 +260,48 @@ func runC18O1(c *Ctx) {
 		"the listeners must be closed before waiting on ctx.Done(): otherwise new connections are accepted during the whole shutdown wait")
 	c.check("C18.O1", "(*proxy/tcp.Server).Shutdown|connections closed after the wait", connPos, okBefore && okAfter,
 		"open connections must be closed only after the wait, and then on every path: closing them first cuts tunnels that would have finished within the configured wait; not closing them leaves never-ending tunnels open")
+	// the wait that precedes the closing of the connections ends with the context, not with a timer of its own: a
+	// one-shot timer case (time.After / time.NewTimer with a duration that is not taken from the context's deadline) of
+	// the select that waits, from which the closing of the connections is reached without waiting again, caps the wait
+	capped := false
+	var capPos token.Pos
+	for _, w := range waits {
+		sel, isSel := w.i.(*ssa.Select)
+		if !isSel || c18InLoop(w.i) {
+			continue // a timer case inside a loop is the tick of a poll: what the poll decides is a run-time matter
+		}
+		for k, st := range sel.States {
+			if st.Dir != types.RecvOnly || !c18CapTimer(st.Chan) {
+				continue
+			}
+			start := c18SelectCase(sel, k)
+			if start == nil {
+				continue
+			}
+			// from the timer case: a close of the connections in this frame, or - when the function returns - after the
+			// call site one frame up, and so on
+			t := start
+			for fr := w.fr; fr != nil && !capped; fr = fr.parent {
+				for _, kk := range marksOf(fr).conns {
+					if kk == t || pathAvoiding(t, kk, func(i ssa.Instruction) bool { return i == w.i }) {
+						capped, capPos = true, st.Pos
+					}
+				}
+				if _, open := exitReachableAvoiding(t, func(i ssa.Instruction) bool { return i == w.i }); !open || fr.site == nil {
+					break
+				}
+				if _, isCall := fr.site.(*ssa.Call); !isCall {
+					break
+				}
+				t = fr.site
+			}
+		}
+	}
+	if !capPos.IsValid() {
+		capPos = connPos
+	}
+	c.check("C18.O1", "(*proxy/tcp.Server).Shutdown|the wait ends with the context only", capPos, !capped,
+		"the wait before the connections are closed also ends when a timer of its own fires (a cap that is not the context's deadline): tunnels that would have finished within the configured wait are cut when the cap is shorter")
 }
 
 func runC18R1(c *Ctx) {
